@@ -84,7 +84,6 @@ MUTANTS = {
         ('payload_truncated', r'serialized_packets\.push\(buffer\[\.\.len\]\.to_vec\(\)\);', 'serialized_packets.push(buffer[..len / 2].to_vec());'),
     ],
     'U15': [
-        ('ack_record_not_removed', r'let sent_packet = self\.sent_packets\.remove\(&packet_sequence\)\.unwrap\(\);', 'let sent_packet = self.sent_packets.get(&packet_sequence).unwrap().clone();'),
         ('ack_range_widened', r'collect_acked_in_range\(&self\.sent_packets, range, &mut new_acks\);', 'collect_acked_in_range(&self.sent_packets, range.start..range.end + 1, &mut new_acks);'),
         ('slice_ack_wrong_index', r'reliable_channel\.process_slice_message_ack\(message_id, slice_index\);', 'reliable_channel.process_slice_message_ack(message_id, slice_index + 1);'),
         ('ack_of_ack_skipped_guard', r'self\.acked_largest\(largest_acked_packet\);', 'self.acked_largest(largest_acked_packet + 1);'),
